@@ -35,6 +35,7 @@ class Gen:
         self.r = random.Random(seed)
         self.opaque = set(opaque)
         self.depth = 0
+        self.flags = []
 
     def b(self, n):
         return bytes(self.r.getrandbits(8) for _ in range(n))
@@ -199,15 +200,18 @@ class Gen:
         if name == 'Metadata':
             return Metadata({r.choice([0, 1, 674, 65536, 2**32]): r.choice([1, 'x', b'ab', [1, 'y'], {'k': 1}]) for _ in range(r.randint(0, 3))})
         if name == 'HardForkInitiationAction':
-            return None
-        if name == 'NewConstitution':
-            return None
+            return HardForkInitiationAction(self.special('GovActionId') if r.random() < 0.5 else None, (r.randint(1, 10), r.choice([0, 1, 24])))
         if name in ('PlutusData', 'Unit', 'CostModels', 'Key', 'ConstrainedBytes', 'UTxO'):
             return None if name != 'UTxO' else UTxO(TransactionInput(TransactionId(self.b(32)), r.choice(SMALL)), self.output())
         if name == 'ProtocolParamUpdate':
             kw = {}
             for f in dataclasses.fields(ProtocolParamUpdate):
-                if f.name == 'cost_models' or r.random() < 0.7:
+                if f.name == 'cost_models':
+                    if r.random() < 0.08:
+                        kw[f.name] = {1: [1, 2, 3]}
+                        self.flags = ['cost_models']
+                    continue
+                if r.random() < 0.7:
                     continue
                 kw[f.name] = self.of_type(typing.get_type_hints(ProtocolParamUpdate)[f.name], f)
             return ProtocolParamUpdate(**kw)
@@ -236,6 +240,8 @@ class Gen:
                 return None
             pick = r.choice(opts)
             return self.of_type(pick, f)
+        if origin is tuple:
+            return tuple(self.of_type(a) for a in args)
         if origin is list:
             return [self.of_type(args[0]) for _ in range(r.choice([0, 1, 2, 3]))]
         if origin is dict:
@@ -335,7 +341,7 @@ def to_pv(x, opaque, declared_any=False):
         return ['bytes', bytes(x).hex()]
     if isinstance(x, str):
         return ['str', x.encode().hex()]
-    if isinstance(x, list):
+    if isinstance(x, (list, tuple)):
         return ['list', [to_pv(e, opaque) for e in x]]
     if isinstance(x, dict):
         return ['mapt', [[to_pv(k, opaque), to_pv(v, opaque)] for k, v in x.items()]]
@@ -356,7 +362,7 @@ def handler(case, payload):
             last = f'{type(e).__name__}: {e}'
     if obj is None:
         return {'skip': last}
-    out = {'cls': case['cls']}
+    out = {'cls': case['cls'], 'flags': g.flags}
     try:
         bs = obj.to_cbor()
     except Exception as e:
